@@ -1,9 +1,10 @@
 #!/bin/bash
-# allquick.sh [mode]: run every registered check once (development helper)
-MODE=${1:-quick}
+# allquick.sh [mode] [props...]: run registered checks once (development helper)
+MODE=${1:-quick}; shift
+PROPS="$@"
+[ -z "$PROPS" ] && PROPS=$(for i in $(seq -w 1 20); do echo C$i; done)
 cd "$(dirname "$0")"
-for i in $(seq -w 1 20); do
-  P=C$i
+for P in $PROPS; do
   S=$(date +%s)
   ./run.sh $P $MODE > /tmp/allq.$P.log 2>&1; E=$?
   echo "$P exit=$E $(( $(date +%s) - S ))s  $(grep -c '^VIOLATION' /tmp/allq.$P.log) violations  $(tail -1 /tmp/allq.$P.log | cut -c1-160)"
